@@ -2,7 +2,7 @@
 no global mutable state."""
 import re
 
-from core import ExprBuilder, callee_name, expr_str, short, walk, places_in, calls_in
+from core import ExprBuilder, callee_name, expr_str, short, walk, places_in, calls_in, dominators
 from engine import rule, ok, bad, undecided, at, Anchor
 from common import call_sites, ends, agg_sites, field_writes, backslice
 from panics import audit
@@ -31,8 +31,14 @@ def _error_variants(ctx, fns, adt="DaemonError"):
     for f in fns:
         for _f, b, j, s in agg_sites([f], adt):
             out.setdefault(s["rv"]["variant"], []).append(at(f, s["span"]["line"]))
+        ebv = ExprBuilder(ctx.prog, f, inline=False)
         for b, t in f.all_calls():
             d, r, info = ctx.prog.callee_of(t)
+            # a tuple-variant constructor used as a function value or called directly
+            for x in [("fn", d or "")] + [a for a in ebv.call(b, t)[3] if a[0] == "fn"]:
+                m = re.search(r"(?:^|::)%s::(\w+)$" % adt, x[1] or "")
+                if m and m.group(1)[0].isupper():
+                    out.setdefault(m.group(1), []).append(at(f, t["span"]["line"]) + " (constructor fn)")
             tgt = ctx.prog.by_norm.get(r or "") or ctx.prog.by_norm.get(d or "")
             if tgt is not None and (tgt.impl_self_adt or "").endswith(adt) and tgt.name in ("from", "into", "try_from"):
                 for _g, b2, j2, s2 in agg_sites([tgt], adt):
@@ -90,11 +96,8 @@ def c11_i1(ctx):
             arms = [(names.get(v, str(v)), tb) for v, tb in t["targets"]]
             rest = allv - {a for a, _ in arms}
             for a, tb in arms + [(None, t["otherwise"])]:
-                others = set()
-                for a2, tb2 in arms + [(None, t["otherwise"])]:
-                    if tb2 != tb:
-                        others |= g.reachable(tb2)
-                mine = g.reachable(tb) - others
+                dom = dominators(g)
+                mine = {x for x in g.live_blocks() if tb in dom.get(x, ())}
                 stop = False
                 for x in mine:
                     blk = g.blocks[x]
